@@ -10,7 +10,7 @@
    stored layouts), so the statements cover relayouts after any history, not only fresh trees.  The bit-level agreement
    of the real TaffyTree with a real user tree (layouts, rounding on/off) is the K/search part (harness/src/c17.rs). *)
 From Coq Require Import List Bool Arith NArith.
-From TV Require Import Model.Engine Model.EngineToy Model.EngineDoc Proofs.EngineMemo Proofs.EngineDoc.
+From TV Require Import Model.Engine Model.EngineToy Model.EngineDoc Proofs.EngineMemo Proofs.EngineDirty Proofs.EngineDoc.
 Import ListNotations.
 
 (* If the user's dispatcher (Hk) maps display:none to compute_hidden_layout, childless nodes to compute_leaf_layout and
@@ -72,6 +72,24 @@ Proof.
   split; [reflexivity|]. split; [exact B|]. split; [exact C|]. split; [exact B'|]. split; [exact C'|exact trap_guarded].
 Qed.
 
+(* The other side of the note: the examples exactly as written (no hidden-mode line at all) agree with TaffyView on every
+   tree WITHOUT a display:none node and every non-hidden input, with the same fuel, provided the container functions never
+   issue hidden-mode queries themselves (WF; trace-validated for the real algorithms on every run of ./check C01). *)
+Theorem C17_literal_pattern_ok_without_display_none :
+  forall (S In Out Lay : Type) (mode : In -> RunMode) (in_eqb : In -> In -> bool) (is_none : S -> bool)
+         (hidden_out : Out) (zero_lay : Lay) (hidden_in : In)
+         (calgo : S -> list S -> In -> Alg In Out Lay) (lalgo : S -> In -> Out) (kind_of : S -> nat -> kind),
+    (forall s n, kind_of s n = kind_taffy S is_none s n) ->
+    (forall s st i, WFAlg In Out Lay mode (calgo s st i)) ->
+    forall f t i,
+      NoNone S In Out Lay is_none t -> mode i <> PerformHiddenLayout ->
+      memo_doc S In Out Lay mode in_eqb hidden_out zero_lay hidden_in calgo lalgo kind_of (fun _ => false) f t i =
+      memo S In Out Lay mode in_eqb is_none hidden_out zero_lay (taffy_algo S In Out Lay calgo lalgo) f t i.
+Proof.
+  intros until kind_of. intros Hk HWF f t i HN Hm.
+  exact (proj1 (literal_without_none S In Out Lay mode in_eqb is_none hidden_out zero_lay hidden_in calgo lalgo kind_of Hk HWF f t i HN Hm)).
+Qed.
+
 (* With an exact (full-input) key the memoised evaluation returns what the cache-free evaluation of the same shape, styles
    and measure data returns, keeps every cache entry valid and never changes the shape (= EngineMemo.memo_sound); on a
    freshly built tree in particular (= memo_agrees_with_fresh). *)
@@ -125,5 +143,6 @@ Proof. exact toy_hyps. Qed.
 Print Assumptions C17_dispatch_equiv.
 Print Assumptions C17_dispatch_same_result.
 Print Assumptions C17_hidden_dispatch_note.
+Print Assumptions C17_literal_pattern_ok_without_display_none.
 Print Assumptions C17_memo_exact.
 Print Assumptions C17_doc_exact.
